@@ -124,27 +124,10 @@ def boundShape (dec : Bool) (t : List UInt8) : Bool :=
 def shapedLit (dec : Bool) (f : Nat) (t : List UInt8) : Option Int :=
   if boundShape dec t then Spec.Range.lit dec f t else none
 
-/-- Known finding D10-S1 (known_findings.txt): the Go code cuts the first point out of a decimal bound and hands the
-rest to `strconv.ParseInt`, so a point written BEFORE the sign (`.-1`, `.+5`, `.-`) is accepted and read as if it
-stood after the sign (`-.1`).  The signature, exactly: a point, a sign, digits only. -/
-def pointBeforeSign (t : List UInt8) : Bool :=
-  match t with
-  | 46 :: c :: r => (c == 43 || c == 45) && r.all fun d => 48 ≤ d.toNat && d.toNat ≤ 57
-  | _ => false
-
-def relaxedLit (dec : Bool) (f : Nat) (t : List UInt8) : Option Int :=
-  if boundShape dec t || (dec && pointBeforeSign t) then Spec.Range.lit dec f t else none
-
-def syntaxViolation : String := "violates:accepted although syntactically invalid"
-
 def specStep (parent : Option YangRange) (mode : String) (fd : Nat) (s : List UInt8) (out : Option YangRange) : String :=
   let dec := mode == "dec"
   let f := if dec then fd else 0
-  let v := specStepWith (shapedLit dec f) parent mode f s out
-  -- an outcome condemned ONLY because bounds of that one shape are accepted is marked as the known finding
-  if v == syntaxViolation && specStepWith (relaxedLit dec f) parent mode f s out == "holds" then
-    v ++ " (a point written before the sign of a decimal bound is accepted: known finding D10-S1)"
-  else v
+  specStepWith (shapedLit dec f) parent mode f s out
 
 /-! ### literals by their written value
 
